@@ -102,7 +102,7 @@ type c13Op struct {
 
 func (c13Sim) Run(e *Env, ci interface{}) {
 	c := ci.(*C13Case)
-	if !c.Layout.Valid() || len(c.Actors) == 0 || len(c.Actors) > 8 || c.Clock0 < 946684800 || c.Clock0 > math.MaxInt32 || c.PreemptP < 0 || c.PreemptP > 1 {
+	if !c.Layout.Valid() || len(c.Actors) == 0 || len(c.Actors) > 8 || c.Clock0 < 946684800 || c.Clock0 > math.MaxUint32-3*400*86400 || c.PreemptP < 0 || c.PreemptP > 1 {
 		e.Skip("invalid-case")
 		return
 	}
